@@ -2,8 +2,10 @@ package client
 
 import (
 	"context"
+	"errors"
 	"fmt"
 	"net"
+	"sync/atomic"
 	"time"
 
 	dtlsProtocol "github.com/pion/dtls/v2/pkg/protocol"
@@ -38,16 +40,31 @@ func (c *Client) keepaliveLoop(ctx context.Context) error {
 	ticker.Stop()
 	defer ticker.Stop()
 
+	// pinging is 1 while a keep-alive PINGREQ waits for its PINGRESP.
+	var pinging int32
+
 	for {
 		select {
 		case <-ticker.C:
-			if err := c.Ping(); err != nil {
-				return err
+			if !atomic.CompareAndSwapInt32(&pinging, 0, 1) {
+				continue
 			}
+			// The ping must not block this loop: the loop has to follow the
+			// state changes while the ping is waiting for its PINGRESP.
+			c.group.Go(func() error {
+				defer atomic.StoreInt32(&pinging, 0)
+				if err := c.ping(true); err != nil && err != errKeepaliveStopped {
+					return err
+				}
+				return nil
+			})
 
 		case state := <-c.stateChangeCh:
 			ticker.Stop()
 			if state != util.StateActive {
+				// No keep-alive packets - retransmissions included - unless
+				// the client is active.
+				c.stopKeepalivePing()
 				continue
 			}
 			ticker.Reset(c.cfg.KeepAlive)
@@ -55,6 +72,16 @@ func (c *Client) keepaliveLoop(ctx context.Context) error {
 		case <-ctx.Done():
 			return nil
 		}
+	}
+}
+
+var errKeepaliveStopped = errors.New("keep-alive ping stopped")
+
+// stopKeepalivePing cancels the keep-alive ping in progress, if any.
+func (c *Client) stopKeepalivePing() {
+	transactionx, _ := c.transactions.GetByType(pkts.PINGREQ)
+	if transaction, ok := transactionx.(*pingTransaction); ok && transaction.keepalive {
+		transaction.Fail(errKeepaliveStopped)
 	}
 }
 
